@@ -225,7 +225,7 @@ class NativeEval(object):
         if name == "get": return _num(args[0][args[1]])
         if name == "sqrt": return _num(math.sqrt(args[0]))
         if name in ("add_rtp", "add_rtn", "rn_add"): return _num(float(args[0]) + float(args[1])) if self.model == "F" else args[0] + args[1]
-        if name in ("sub_rtp", "sub_rtn"): return args[0] - args[1]
+        if name in ("sub_rtp", "sub_rtn", "rn_sub"): return _num(float(args[0]) - float(args[1])) if self.model == "F" else args[0] - args[1]
         if name == "exact_add":
             a, b = float(args[0]), float(args[1])
             return fractions.Fraction(a) + fractions.Fraction(b) == fractions.Fraction(a + b)
